@@ -31,8 +31,9 @@ def main():
     pid, k = sys.argv[1], sys.argv[2]
     tier = sys.argv[sys.argv.index("--tier") + 1] if "--tier" in sys.argv else "quick"
     checks = sys.argv[sys.argv.index("--checks") + 1].split(",") if "--checks" in sys.argv else [pid]
-    src = "/tmp/wt/%s/_out" % pid
-    patch, demo = os.path.join(src, "patch%s.diff" % k), os.path.join(src, "demo%s.py" % k)
+    src = sys.argv[sys.argv.index("--src") + 1] if "--src" in sys.argv else "/tmp/wt/%s/_out" % pid
+    sk = sys.argv[sys.argv.index("--srck") + 1] if "--srck" in sys.argv else k
+    patch, demo = os.path.join(src, "patch%s.diff" % sk), os.path.join(src, "demo%s.py" % sk)
     dst = os.path.join(VERIF, "seeded", "%s-%s" % (pid, k))
     os.makedirs(dst, exist_ok=True)
     shutil.copy(patch, os.path.join(dst, "patch.diff")); shutil.copy(demo, os.path.join(dst, "demo.py"))
